@@ -112,6 +112,17 @@ impl Assignment {
                     "attempting to look up a variable that does not exist in any parent scope",
                 )?;
 
+            // `modify` writes through a capture: the name has to be visible from outside this
+            // function.  A variable that only lives in an enclosing block of the same function
+            // (or of the module) has no capture behind it and the interpreter fails on the store.
+            let is_capture = (skip..)
+                .map_while(|n| user_data.get_dependency_flags_from_name_skip_n(name, n))
+                .any(|(_, crosses_function)| crosses_function);
+
+            if !is_capture {
+                bail!("`{name}` belongs to this function and is not a variable capture; a plain assignment updates it")
+            }
+
             return Ok(!ident.is_const());
         }
 
